@@ -232,13 +232,17 @@ class Acc:
             self.viol.append((d, case))
 
 
+_CURRENT = {"obs": None}
+
+
 def case_of(nodes, sd, idx, **kw):
-    c = {"nodes": nodes, "seed": sd, "idx": idx}
+    c = {"nodes": nodes, "seed": sd, "idx": idx, "documented": _CURRENT["obs"]}
     c.update(kw)
     return c
 
 
 async def check_tree(mode, nodes, obs, sd, idx, acc):
+    _CURRENT["obs"] = obs
     rs = sd * 1000003 + idx
     has_soll = any(n["kind"] != "p" and n["lab"]["ind"] == "SOLL" for n in nodes)
     has_inv = any((n["kind"] != "p" and n["lab"]["ind"] == "INV") or (n["kind"] == "p" and "I" in n["pool"]) for n in nodes)
@@ -379,14 +383,24 @@ def replay_dump(mode, dump, res: Result, stride=1):
 
 
 def replay_case(mode, case):
-    acc = Acc()
-    nodes = case["nodes"]
-    import json
     from evalcheck import _tuplify
-    nodes = [dict(n, pool=tuple(n["pool"])) for n in nodes]
-    spec_dump = None
-    # the documented result is recomputed by TLC for just this tree? The replay compares code against the stored description instead:
+    import ahb  # noqa: F401
+
+    def fix(n):
+        n = dict(n)
+        n["pool"] = tuple(n["pool"])
+        return n
+
+    nodes = [fix(n) for n in case["nodes"]]
     print("tree:", [(n["kind"], n["par"], n["lab"] if n["kind"] != "p" else n["pool"], n["inp"]) for n in nodes])
+    obs = case.get("documented")
+    if obs:
+        obs = {k: ([dict(e, offered=tuple(e.get("offered", ()))) for e in v] if isinstance(v, list) else v) for k, v in obs.items()}
+        acc = Acc()
+        asyncio.run(check_tree(mode, nodes, obs, case["seed"], case["idx"], acc))
+        for d, _ in acc.viol:
+            print(d)
+        return 1 if acc.viol else 0
     deep, exprs, _ = build_ahb(nodes, random.Random(case["seed"] * 1000003 + case["idx"]))
     print("expressions:", exprs)
     for soll in (True, False):
